@@ -19,6 +19,15 @@ CHECKS = {
  "C08": dict(level=MC, design="§4 C06/C07/C08", technique="bounded-exhaustive enumeration of print-free linear AxCut programs; RV64 emulator vs reference machine plus three-backend agreement",
     text="As C06 for the RV64 pseudo-assembly (<= 14 live variables, print-free, 64-bit LW/SW): result register at the exit label equals the reference result, and x86-64 and AArch64 agree on every such program.",
     note="RV64 emulator for the 21 forms the backend prints; start state as on the other backends (heap/free registers initialised by the harness)"),
+ "C09": dict(level=MC, design="§4 C09", technique="explicit-state BFS over histories of heap operations with real generated code as transitions (canonical-state dedup, to a fixpoint) + invariant at every boundary of every emulated program execution",
+    text="(B) Breadth-first search from the post-prologue machine state: each transition compiles one AxCut statement (literal, let, dup, drop, move, switch, create, invoke) with the real code generator and runs it on the emulator; states are deduplicated on a canonical form (block addresses renamed in discovery order, dead data scrubbed to undefined); in every state the heap partition / exact-refcount / memory-safety invariant and agreement with a reference value model are checked; the search reaches a fixpoint for each stated (variables, live-block) bound on all three backends, so histories of any length over the alphabet are covered. (A) The same invariant is evaluated at every statement boundary (hook H1 markers) of every emulated run of the C06-C08 program families.",
+    note="heap geometry read from the backend crates; emulators as C06-C08; canonical form argued in DESIGN §4 C09"),
+ "C10": dict(level=MC, design="§4 C10", technique="the C09 explicit-state BFS to a fixpoint with the footprint criterion in every transition + loop programs at n, 4n, 16n",
+    text="In every transition of the fixpoint search: if the allocation frontier advanced, no reusable, deferred or waiting block may remain (fresh memory only when both lists are empty), and along every discovered path blocks-below-frontier <= peak reachable + 2. Loop programs of six shapes (lists, shared lists, closures, trees, multi-block records) run at n, 4n, 16n iterations on all three backends: the frontier must be identical.",
+    note="as C09"),
+ "C13": dict(level=MC, design="§4 C13", technique="bounded-exhaustive enumeration of programs with prints at 0..22 live variables; every emulated execution under a calling-convention model with definedness tracking",
+    text="All executions of the linear AxCut families on x86-64 and AArch64 run under the external-call model: alignment at every call (every SP access on AArch64), caller-saved registers / flags / LR / stack below SP become undefined at each print call and may not reach a branch, address, jump target, print argument or the result; callee-saved registers and SP compared with entry sentinels at return.",
+    note="register classes from the System V x86-64 and AAPCS64 documents; print runtime modelled as an arbitrary conforming callee"),
 }
 
 ALL = ["C%02d" % i for i in range(1, 21)]
